@@ -217,8 +217,23 @@ def pick_rep0(rng, table, i, have_zoneinfo):
 def canonical(case):
     def c(spec):
         return None if spec is None else {"i": spec["i"], "rep": ["au"]}
-    return {"fresh": c(case["fresh"]),
-            "nodes": [{"preds": n["preds"], "kind": n["kind"], "t": c(n["t"])} for n in case["nodes"]]}
+    out = {"fresh": c(case["fresh"]),
+           "nodes": [{"preds": n["preds"], "kind": n["kind"], "t": c(n["t"])} for n in case["nodes"]]}
+    if "clock" in case:
+        out["clock"] = case["clock"]
+    return out
+
+
+def with_clock(rng, case):
+    """the moment at which the run takes place: shortly after the latest instant the case mentions (the child freezes
+    `datetime.now()` / `utcnow()` inside uberjob at that moment - nothing in the property allows the decision to depend on it,
+    in whatever zone the process lives)"""
+    inst = [n["t"]["i"] for n in case["nodes"] if n.get("t") and "i" in n["t"]]
+    if case.get("fresh") and "i" in case["fresh"]:
+        inst.append(case["fresh"]["i"])
+    if inst:
+        case["clock"] = max(inst) + rng.randint(0, 2 * HOUR)
+    return case
 
 
 def gen_matrix(rng, table, n_triples):
@@ -369,6 +384,10 @@ def run_exploration(ctx, tier, seed, zones):
             work[z] = ([("matrix", c) for c in gen_matrix(rng, t, n_tr)]
                        + [("random", c) for c in gen_random(rng, t, n_rnd, have_zoneinfo)]
                        + [("gap", c) for c in gen_gap(rng, t, n_gap)])
+            rng_c = random.Random(f"C18-clock:{seed}:{z}")
+            for kind, c in work[z]:
+                if kind != "gap":
+                    with_clock(rng_c, c)
         # canonical twins (same instants, aware UTC) all go to the TZ=UTC child; identical twins are run once
         canon_cases, canon_index = [], {}
         for z in zones:
